@@ -284,7 +284,7 @@ func validateWitnesses(spec *PropSpec, r *Run, max int, seed int) (validated int
 	}
 	validatedLabel := map[string]bool{}
 	tried := map[int]bool{}
-	for round := 0; round < 4; round++ {
+	for round := 0; round < 6; round++ {
 		if round > 0 {
 			// labels still without a validated witness: try further witnesses carrying them (the first
 			// ones may have been unrealisable models of uninterpreted library functions)
@@ -295,7 +295,7 @@ func validateWitnesses(spec *PropSpec, r *Run, max int, seed int) (validated int
 					continue
 				}
 				for _, c := range w.Covers {
-					if !validatedLabel[c] && c != "harness-end" && per[c] < 8*round {
+					if !validatedLabel[c] && c != "harness-end" && per[c] < 12*round {
 						per[c]++
 						pick = append(pick, i)
 						break
